@@ -200,6 +200,28 @@ def handle (req : J) : Except String J := do
       | .percent n d => Lean.Json.arr #[.str "percent", .num (Lean.JsonNumber.fromNat n), .num (Lean.JsonNumber.fromNat d)]
       | .number n => Lean.Json.arr #[.str "number", .num (Lean.JsonNumber.fromNat n)]
       | .table _ => Lean.Json.arr #[.str "table"]) r)
+  | "parsemergelist" => do
+    let ms ← (← asArr (← field req "in")).toList.mapM asStr
+    let pt ← (← asArr (fieldD req "percent" (.arr #[]))).toList.mapM (fun e => do
+      match (← asArr e).toList with
+      | [.str s, .null] => pure (s, (none : Option (Nat × Nat)))
+      | [.str s, n, d] => do pure (s, some ((← asNat n), (← asNat d)))
+      | _ => err "bad percent")
+    let it ← (← asArr (fieldD req "int" (.arr #[]))).toList.mapM (fun e => do
+      match (← asArr e).toList with
+      | [.str s, .null] => pure (s, (none : Option Int))
+      | [.str s, n] => do pure (s, some (← asInt n))
+      | _ => err "bad int")
+    let dp ← asArr (← field req "defaultPercent")
+    let dn ← asNat (← field req "defaultNumber")
+    let po : Cli.PercentOracle := fun s => (pt.find? (·.1 == s)).map (·.2)
+    let io : Cli.IntOracle := fun s => (it.find? (·.1 == s)).map (·.2)
+    let r := Cli.parseMergeList po io ((← asNat dp[0]!), (← asNat dp[1]!)) dn ms
+    pure (resJ (fun (cs : List Cmp) => Lean.Json.arr (cs.map (fun c => match c with
+      | .exact => Lean.Json.arr #[.str "exact"]
+      | .percent n d => Lean.Json.arr #[.str "percent", .num (Lean.JsonNumber.fromNat n), .num (Lean.JsonNumber.fromNat d)]
+      | .number n => Lean.Json.arr #[.str "number", .num (Lean.JsonNumber.fromNat n)]
+      | .table _ => Lean.Json.arr #[.str "table"])).toArray) r)
   | "clirun" => do
     -- effect-trace model of `main()`: which step fails (if any) and what the world looks like afterwards
     let stepErr (k : String) : Except String (Option PyErr) := do
